@@ -85,7 +85,7 @@ theorem bodyA3_toV3BodyS {V : Type} (cs : List String) (p : Param2 V) (hl : p.lo
       · simp [he, formMime_star]
       · simp [he, hc']
     have hb : toV3BodyS cs p = .val { required := p.required, mimes := if cs.isEmpty then ["*/*"] else cs,
-                                      schema := some (toV3S s) } := by
+                                      schema := some (toV3S s), origName := p.name != "" } := by
       simp [toV3BodyS, hsch]
     rw [hb]
     simp only [bodyA3, hm, Bool.false_eq_true, if_false]
@@ -440,7 +440,7 @@ theorem fromV3Body_toV3BodyS {V : Type} (cs : List String) (p : Param2 V) (s : S
       [.val { name := nm, loc := "body", required := p.required, cons := {}, items := none,
               schema := some (fromV3S (toV3S s)) }] := by
   have hb : toV3BodyS cs p = .val { required := p.required, mimes := if cs.isEmpty then ["*/*"] else cs,
-                                    schema := some (toV3S s) } := by
+                                    schema := some (toV3S s), origName := p.name != "" } := by
     simp [toV3BodyS, hs]
   have hm : (if cs.isEmpty then ["*/*"] else cs).any isFormMime = false := by
     by_cases he : cs.isEmpty
@@ -683,22 +683,24 @@ theorem ops_relBack {V : Type} (ps2 ps : List (Path2 V)) (h : rel2 PathRelBack p
     id id (fun a b hab => hab.2.2) h
   simpa using this
 
-/-- **Document level, round trip, with body parameters** (outside every exclusion class): the document converts, the
-    way back does not panic, and the OpenAPI 2 document that comes back describes the same API — operation by
-    operation (request inputs up to order: the body parameter comes back after the other parameters), the same
-    path-level parameters, shared responses, definitions, security schemes and requirements, the same shared
-    parameters up to order (they are stored in a Go map), the same servers as a set. -/
-theorem api2_roundtrip_body {V : Type} (d : Doc2 V) (h : docBodyBack d = true) :
+/-- the document-level round trip, given the round trip of every path item (shared parameters: query / header /
+    path / body) -/
+theorem api2_roundtrip_gen {V : Type} (d : Doc2 V)
+    (hparams : d.params.all (fun kp => sharedOK3 d.consumes kp.2) = true)
+    (hparamsB : d.params.all (fun kp => sharedOKBack d.consumes kp.2) = true) (hpnodup : nodupKeys d.params = true)
+    (hrespsB : d.responses.all (fun kr => respSimpleBack d.produces kr.2) = true)
+    (hnodup : nodupKeys d.defs = true) (hdefsB : d.defs.all (fun ks => defSimpleBack ks.2) = true)
+    (hsecs : d.secs.all (fun ks => secInFragment ks.2) = true)
+    (hhost : d.loc.host ≠ "") (hschemes : d.loc.schemes.all schemeOK = true)
+    (hpathsRT : ∀ (cbs : List (String × BRef3 V)), (∀ n, (alookup n cbs).isSome = (bodyKeys d.params).contains n) →
+      ∀ p ∈ d.paths, ∃ p3, toV3Path { cbodies := cbs, cschemas := [] } d.consumes p = .ok p3 ∧
+        ∃ p2, fromV3Path [] p3 = some p2 ∧ PathRelBack p2 p) :
     ∃ d3 d2, toV3Raw d = .ok d3 ∧ fromV3 d3 = some d2 ∧
       rel2 OpA.sim (api2 d2).ops (api2 d).ops ∧ (api2 d2).pathParams = (api2 d).pathParams ∧
       (api2 d2).shared.Perm (api2 d).shared ∧ (api2 d2).sharedResponses = (api2 d).sharedResponses ∧
       (api2 d2).defs = (api2 d).defs ∧ (api2 d2).security = (api2 d).security ∧
       (api2 d2).securityReq = (api2 d).securityReq ∧
       (∀ x, x ∈ (api2 d2).servers ↔ x ∈ (api2 d).servers) := by
-  simp only [docBodyBack, Bool.and_eq_true, bne_iff_ne, ne_eq] at h
-  obtain ⟨⟨⟨⟨⟨⟨hbody, hparamsB⟩, hpnodup⟩, hpathsB⟩, hrespsB⟩, hdefsB⟩, hhost, hschemes⟩ := h
-  simp only [docBody, Bool.and_eq_true] at hbody
-  obtain ⟨⟨⟨⟨⟨⟨hparams, hpaths⟩, _⟩, hnodup⟩, _⟩, hsecs⟩, _⟩ := hbody
   obtain ⟨secs, hsecs1, hsecs2⟩ := secs_roundtrip d.secs hsecs
   obtain ⟨sh1, sh2, _⟩ := sharedP3_body d.consumes d.params hparams
   obtain ⟨cps2, hb1, hb2⟩ := sharedP3_back d.consumes d.params hparamsB
@@ -708,10 +710,7 @@ theorem api2_roundtrip_body {V : Type} (d : Doc2 V) (h : docBodyBack d = true) :
   subst sh1
   obtain ⟨paths3, paths2, hp1, hp2, hp3⟩ := mapRes_mapM_rel (R := PathRelBack)
     (toV3Path { cbodies := cbs, cschemas := [] } d.consumes) (fromV3Path []) d.paths
-    (fun p hp => by
-      obtain ⟨p3, p2, e1, e2, e3⟩ := path_body_roundtrip cbs (bodyKeys d.params) sh2 d.consumes p
-        (List.all_eq_true.mp hpaths p hp) (List.all_eq_true.mp hpathsB p hp)
-      exact ⟨p3, e1, p2, e2, e3⟩)
+    (fun p hp => hpathsRT cbs sh2 p hp)
   obtain ⟨crs, hr1, hr2⟩ := responses_roundtrip d.produces d.responses hrespsB
   obtain ⟨hbinfmt, hbin, hdefs2⟩ := defs_roundtrip d.defs hdefsB
   have hmerge : mergeSchemas ([] : List (String × CSchema V)) d.defs =
@@ -753,11 +752,30 @@ theorem api2_roundtrip_body {V : Type} (d : Doc2 V) (h : docBodyBack d = true) :
       simp only [List.nil_append, dedupLast_nodup _ hnd]
       exact hb2
     · intro x
-      have hs : ∀ y ∈ d.loc.schemes, y = "http" ∨ y = "https" := by
-        intro y hy
-        have := List.all_eq_true.mp hschemes y hy
-        simpa using this
-      exact servers_roundtrip_partial d.loc hhost hs x
+      exact servers_roundtrip_partial d.loc hhost (fun y hy => List.all_eq_true.mp hschemes y hy) x
+
+
+/-- **Document level, round trip, with body parameters** (outside every exclusion class): the document converts, the
+    way back does not panic, and the OpenAPI 2 document that comes back describes the same API — operation by
+    operation (request inputs up to order: the body parameter comes back after the other parameters), the same
+    path-level parameters, shared responses, definitions, security schemes and requirements, the same shared
+    parameters up to order (they are stored in a Go map), the same servers as a set. -/
+theorem api2_roundtrip_body {V : Type} (d : Doc2 V) (h : docBodyBack d = true) :
+    ∃ d3 d2, toV3Raw d = .ok d3 ∧ fromV3 d3 = some d2 ∧
+      rel2 OpA.sim (api2 d2).ops (api2 d).ops ∧ (api2 d2).pathParams = (api2 d).pathParams ∧
+      (api2 d2).shared.Perm (api2 d).shared ∧ (api2 d2).sharedResponses = (api2 d).sharedResponses ∧
+      (api2 d2).defs = (api2 d).defs ∧ (api2 d2).security = (api2 d).security ∧
+      (api2 d2).securityReq = (api2 d).securityReq ∧
+      (∀ x, x ∈ (api2 d2).servers ↔ x ∈ (api2 d).servers) := by
+  simp only [docBodyBack, Bool.and_eq_true, bne_iff_ne, ne_eq] at h
+  obtain ⟨⟨⟨⟨⟨⟨hbody, hparamsB⟩, hpnodup⟩, hpathsB⟩, hrespsB⟩, hdefsB⟩, hhost, hschemes⟩ := h
+  simp only [docBody, Bool.and_eq_true] at hbody
+  obtain ⟨⟨⟨⟨⟨⟨hparams, hpaths⟩, _⟩, hnodup⟩, _⟩, hsecs⟩, _⟩ := hbody
+  refine api2_roundtrip_gen d hparams hparamsB hpnodup hrespsB hnodup hdefsB hsecs hhost hschemes ?_
+  intro cbs hcb p hp
+  obtain ⟨p3, p2, e1, e2, e3⟩ := path_body_roundtrip cbs (bodyKeys d.params) hcb d.consumes p
+    (List.all_eq_true.mp hpaths p hp) (List.all_eq_true.mp hpathsB p hp)
+  exact ⟨p3, e1, p2, e2, e3⟩
 
 /-- non-vacuity of `api2_roundtrip_body`: the document of the example above (body parameter inline between other
     parameters and shared; discriminator and a reference inside additionalProperties in the body schema) with one
